@@ -2,10 +2,12 @@ use crate::run::Suite;
 use std::path::Path;
 
 pub mod c21;
+pub mod c24;
 
 pub fn for_property(p: &str) -> Vec<Suite> {
     match p {
         "C21" => c21::suites(),
+        "C24" => c24::suites(),
         _ => vec![],
     }
 }
